@@ -249,6 +249,73 @@ func c04(c *Ctx) {
 		structured(mkStream(fs), "large")
 	}
 
+	// (4) reader level over a real socket: the same stream written to a real server in different
+	// segmentations; observable = the reader's dispatch events (executed / not supported) in order.
+	// Unfragmented frames of supported and unsupported ids on one connection.
+	supported := map[uint16]bool{0x0001: true, 0x0002: true, 0x0200: true, 0x0100: false, 0x0003: false, 0x0f01: false, 0x7e7d: false, 0x0005: false}
+	nsock := 25
+	if !quick {
+		nsock = 400
+	}
+	loc28 := func() []byte {
+		b := make([]byte, 28)
+		rng.Read(b[:22])
+		copy(b[22:], []byte{0x24, 0x10, 0x01, 0x12, 0x30, 0x59})
+		return b
+	}
+	for i := 0; i < nsock; i++ {
+		v2019 := rng.Intn(2) == 0
+		phone := RandPhone(rng, v2019)
+		k := 2 + rng.Intn(7)
+		var fs []FrameSpec
+		var want []string
+		serial := uint16(rng.Intn(65536))
+		for j := 0; j < k; j++ {
+			ids := []uint16{0x0002, 0x0002, 0x0003, 0x0200, 0x0f01, 0x0001, 0x7e7d, 0x0005}
+			id := ids[rng.Intn(len(ids))]
+			var body []byte
+			switch id {
+			case 0x0200:
+				body = loc28()
+			case 0x0001:
+				body = []byte{byte(rng.Intn(256)), byte(rng.Intn(256)), 0x80, 0x01, 0}
+			case 0x0f01, 0x7e7d:
+				body = RandBody(rng, []int{0, 1, 7, 40, 300}[rng.Intn(5)])
+			}
+			f := FrameSpec{ID: id, Ver2019: v2019, Phone: phone, Serial: serial, Body: body}
+			serial++
+			fs = append(fs, f)
+			kind := "N"
+			if supported[id] {
+				kind = "E"
+			}
+			want = append(want, fmt.Sprintf("%s:%d,%d,%s", kind, f.ID, f.Serial, Hx(f.Body)))
+		}
+		s := mkStream(fs)
+		n := len(s.wire)
+		var some []int
+		for _, e := range s.ends {
+			if rng.Intn(2) == 0 {
+				some = append(some, e)
+			}
+		}
+		type seg struct {
+			kind   string
+			chunks [][]byte
+		}
+		for _, sg := range []seg{{"whole", [][]byte{s.wire}}, {"framewise", Chunks(s.wire, s.ends)}, {"coalesced", Chunks(s.wire, some)},
+			{"random", Chunks(s.wire, RandCuts(rng, n, 1+rng.Intn(6)))}, {"random2", Chunks(s.wire, RandCuts(rng, n, 1+rng.Intn(12)))}} {
+			kind, chunks := sg.kind, sg.chunks
+			req := "rd " + HexChunks(chunks, "")
+			ans := c.Do(req, len(chunks) != len(fs))
+			c.Count("socket/" + kind)
+			if w := "ok " + strings.Join(want, ";"); ans != w {
+				c.Violate(Violation{Signature: "C04/reader_" + kind, What: "the reader's dispatch events over a real connection differ from the frames sent",
+					Input: req, Observed: Trunc(ans, 3000), Required: Trunc(w, 3000)})
+			}
+		}
+	}
+
 	// (3) malformed streams: correspondence only (what the code does with garbage is C02/C10's
 	// subject; here it pins the model's error paths and history handling to the code)
 	nmal := 1500
